@@ -4,6 +4,8 @@ package harness
 
 import (
 	"bytes"
+	"embed"
+	"encoding/json"
 	"fmt"
 	"sort"
 	"testing"
@@ -598,6 +600,9 @@ func genC10(t *rapid.T) c10Case {
 	if rapid.Bool().Draw(t, "small") {
 		c.Len = rapid.IntRange(2, 64).Draw(t, "len")
 		c.K = uint32(rapid.IntRange(1, 6).Draw(t, "k"))
+		if rapid.IntRange(0, 2).Draw(t, "dense") == 0 { // 16..32 bits: insertions turn other elements into false positives
+			c.Len = rapid.IntRange(2, 4).Draw(t, "lendense")
+		}
 	} else {
 		c.Len = 2000
 		c.K = 10
@@ -728,6 +733,25 @@ func seqInts(n int) []int {
 	return out
 }
 
+// Saved cases that once failed on a tree believed to be correct (see DESIGN.md 8.2 #16); they run first.
+//
+//go:embed testdata/c10-*.json
+var c10Saved embed.FS
+
+func c10SavedCases() (out []c10Case) {
+	ents, _ := c10Saved.ReadDir("testdata")
+	for _, e := range ents {
+		raw, err := c10Saved.ReadFile("testdata/" + e.Name())
+		var doc struct {
+			Case c10Case `json:"case"`
+		}
+		if err == nil && json.Unmarshal(raw, &doc) == nil {
+			out = append(out, doc.Case)
+		}
+	}
+	return out
+}
+
 var kC10 = register(&Kind[c10Case]{Prop: "C10", Name: "filtertx", Gen: genC10, Eval: evalC10})
 
 func TestC10(t *testing.T) {
@@ -746,6 +770,9 @@ func TestC10(t *testing.T) {
 		refSelfBloom(ev)
 		if len(ev.harnessErrors) > 0 {
 			return
+		}
+		for _, c := range c10SavedCases() {
+			kC10.One(ev, c)
 		}
 		kC10.Run(t, ev, perShard(pick(6000, 1500000)))
 		ev.requireClasses("C10:out-class=pubkey", "C10:out-class=multisig", "C10:out-class=pubkeyhash", "C10:out-class=scripthash",
